@@ -18,7 +18,8 @@ Core Lean only.  Mirrored:
       beats everything that comes later, Modify/GenerateRequest yield to a later early response ↦ first early wins
   The rate-limit state is keyed by the remedy NAME (`LimiterID`), not by the endpoint.
 
-Only literal URLs are used (URL-tree matching is C03/C13's subject).
+Only literal URLs are used (URL-tree matching is C03/C13's subject), in spellings with leading / trailing dots and
+slashes; one spelling per declared URL and case (declaring one URL in two spellings is not generated).
 -/
 namespace LunarVerif.C09
 
@@ -86,10 +87,18 @@ def isTransparent (p : DPol) : Bool :=
   | .retry _ _ _ | .other => true
   | _ => false
 
+/-- `strings.Trim(url, "./")`: how both `BuildEndpointPolicyTree` (the key under which the methods of one URL
+    are collected) and the URL tree (`splitURL`) normalise a declared or requested URL. -/
+def trimURL (s : String) : String :=
+  let dotSlash (c : Char) : Bool := c == '.' || c == '/'
+  String.ofList ((s.toList.dropWhile dotSlash).reverse.dropWhile dotSlash).reverse
+
+/-- An endpoint policy applies to the requests of its method whose URL is the declared one up to leading /
+    trailing dots and slashes; every method declared for a URL keeps its own policies. -/
 def applies (p : DPol) (url method : String) : Bool :=
   p.enabled && (match p.ep with
     | none => true
-    | some (u, m) => u == url && m == method)
+    | some (u, m) => trimURL u == trimURL url && m == method)
 
 /-- `getRemedies`: endpoint remedies first, then global ones, each in configuration order. -/
 def chain (ps : List DPol) (url method : String) : List DPol :=
